@@ -55,3 +55,13 @@ chk("C08",
     "The real Buffer stripe is driven by 2-4 readers under a cooperative scheduler that yields before every atomic step of Add/Free (hook H3), so each execution is one exactly-known interleaving: PCT-priority and random-walk schedules (1-20 adds per reader, prefill 0-15) plus preemption-bounded depth-first enumeration (<=2, thorough <=3 preemptions) of scripts placed around the fill point, including 16 further adds arriving while the previous batch is still held. Per schedule: every delivered id was added, non-zero and delivered at most once, a batch is stable while its token is held, the token is available at quiescence, and 33 further sequential adds deliver a batch. Store level: 2-64 readers during maintenance stalled by a held policy lock / SaveCache into a blocked writer / a blocked removal listener; after release every stripe's head must advance during 128 further hits per stripe and 4096 hits on one key must raise its frequency estimate. Thorough adds a -race pass of the store rounds.",
     "Cooperative scheduling serialises the readers, so memory-ordering effects of truly parallel atomics are only exercised by the store-level rounds. DFS cases that exceed their schedule budget are reported as not enumerated completely; exhaustive is never claimed.",
     "cooperative deterministic scheduler over hook points (PCT + preemption-bounded DFS) with delivery ledger; progress oracle on live stripes")
+
+chk("C09",
+    "Generated traces are run against the real cache and a cost-aware reference LRU of the same capacity: hot-set traces (hot keys costing 0.1/0.25/0.5 of MaxSize read 1:1, 1:4, 4:1 against never-read-again inserts; oracle: hit ratio of the hot reads over the last quarter >= 0.97) and Zipf traces (s 1.01/1.1/1.3; oracle: hit ratio >= LRU - 0.005), for MaxSize 50..10000 (thorough: ..100000), unit and mixed costs, plain / loading / hybrid caches (a hit = answered from memory without loader or secondary store), each fresh and after the same workload has been run by 32 goroutines concurrently (reference LRU warmed with the same stream). The adaptive split is sampled during the measured quarter so a loss can be attributed. Quick runs a PRNG-chosen stratified subset (48 traces), thorough the full matrix (720 traces).",
+    "Statistical: thresholds come from the property's wording, not from fitting; one open finding (hill climber squeezing the protected region below the hot set at MaxSize <= 1000) is listed in known_findings.json and masks hot-set losses in [0.70,0.97) at those sizes when the squeeze was observed. The pre-use phase deliberately uses the measured trace's own key population: an unrelated saturated population measures adaptation to a workload shift, which TinyLFU does not promise (control experiment in DESIGN.md).",
+    "trace-driven monitor: hit/miss log compared with a reference LRU model and a convergence threshold")
+
+chk("C20",
+    "Wait calls are timed against writes with a lock-free notification counter and decided by two oracles. Barrier: when a Wait returns, every Delete / Set that had returned before it was called must already be applied (phase mode: maintenance stalled inside a batch, n in {0,1,126..129,255,256,1000} writes then K in {1,2,3,8,64} markers queued at known positions relative to the 128-event batch boundaries; steal mode: writes A, first waiter parked at hook H6 between its marker send and its receive, writes B, second waiter, with the listener holding B's first notification so an early return is observable; mixed mode: 0-32 writers alternating Set/Delete while 1-32 goroutines call Wait repeatedly). Termination: a Wait that does not return is reported only from an observed deadlock state (waiter parked in Store.Wait on a channel, write queue empty, maintenance goroutine idle, identical in two goroutine dumps 150 ms apart).",
+    "Positions of markers relative to batches are established through the white-box queue length before maintenance resumes. Every dump-based wait is bounded; running out is inconclusive, never a violation, and the predicate self-tests that it can see its own goroutine.",
+    "deadlock-state predicate over goroutine dumps + barrier oracle over recorded call/return/notification counts, hook-driven scheduling")
